@@ -9,7 +9,11 @@ use serde_json::json;
 pub struct C01;
 
 pub fn search_case_strategy(max_n: usize, allow_edge_reverse: bool) -> BoxedStrategy<SearchCase> {
-    net_any(max_n)
+    search_case_strategy_from(net_any(max_n).boxed(), allow_edge_reverse)
+}
+
+pub fn search_case_strategy_from(nets: BoxedStrategy<NetCase>, allow_edge_reverse: bool) -> BoxedStrategy<SearchCase> {
+    nets
         .prop_flat_map(move |net| {
             let m = net.m();
             (
@@ -84,7 +88,13 @@ impl Prop for C01 {
         "generated: network (7 shapes incl. parallel edges, self loops, dead ends, two components; free or metric lengths) x traversal (distance | speed table, all unit combinations) x optional turn delays x non-negative cost blend x optional edge-local restriction / restricted turns x algorithm (Dijkstra, A* wf in {default,0,0.5,1,2,10} from config or query, single-via k 1-4, Yen k 1-4) x orientation (vertex | edge) x direction x distinct origin/destination (destination optional for plain searches). non-trivial = a returned route with >= 2 edges or a returned tree with >= 3 entries".to_string()
     }
     fn strategy(&self, tier: Tier) -> BoxedStrategy<SearchCase> {
-        search_case_strategy(tier.pick(12, 40), false)
+        // one case in 250 comes from networks of up to 400 (thorough 1500) vertices: chains and
+        // grids there give routes of hundreds of edges and trees of hundreds of entries
+        prop_oneof![
+            249 => search_case_strategy(tier.pick(12, 40), false),
+            1 => prop_oneof![search_case_strategy(tier.pick(400, 1500), false), search_case_strategy_from(net_long(tier.pick(800, 1500)).boxed(), false)],
+        ]
+        .boxed()
     }
     fn cases(&self, tier: Tier) -> u32 {
         tier.pick(60_000, 3_000_000)
@@ -158,6 +168,9 @@ impl Prop for C01 {
                 o.fail(sig("route", "success-without-route"), json!({}));
             }
             o.label_if(res.routes.len() > 1, "ksp-route-index>0");
+            o.label_if(res.routes.iter().any(|r| r.len() >= 64), "route-of-64+-edges");
+            o.label_if(res.routes.iter().any(|r| r.len() >= 256), "route-of-256+-edges");
+            o.label_if(res.trees.iter().any(|t| t.len() >= 256), "tree-of-256+-entries");
             for (i, route) in res.routes.iter().enumerate() {
                 let ids = route_ids(route);
                 let verdict = if case.edge_oriented {
